@@ -8,6 +8,7 @@ CONSTANTS
   Forms = {"take", "read", "take_next"}
   Kinds = {"V", "X"}
   Retransmit = FALSE
+  NoKey = FALSE
   GenK = 3
 CONSTRAINT Bound
 VIEW View
